@@ -8,7 +8,7 @@ use emulator_8086_lib::{DataParser, Interpreter, InterpreterContext, Preprocesso
 use std::io::{BufRead, Write};
 
 const PRE_DATA: &str = "dl: DB 5\ndw_: DW 7\n";
-const PRE_CODE: &str = "def pr { hlt }\ncl: nop\n";
+const PRE_CODE: &str = "def pr { hlt }\ncl: hlt\n";
 
 fn assemble(line: &str, is_data: bool) -> Result<(PreprocessorContext, PreprocessorOutput, usize, usize), String> {
     let pre = if is_data { PRE_DATA.to_string() } else { format!("{}{}", PRE_DATA, PRE_CODE) };
@@ -22,8 +22,13 @@ fn assemble(line: &str, is_data: bool) -> Result<(PreprocessorContext, Preproces
     let src = format!("{}{}\n", pre, line);
     match p.parse(&mut ctx, &mut out, &src) {
         Ok(_) => Ok((ctx, out, nc, nd)),
-        Err(e) => Err(format!("{}", e).replace('\n', " ").replace('\t', " ")),
+        Err(e) => Err(short(format!("{}", e))),
     }
+}
+
+fn short(s: String) -> String {
+    let t = s.replace('\n', " ").replace('\t', " ");
+    t.chars().take(160).collect()
 }
 
 fn main() {
@@ -56,7 +61,7 @@ fn main() {
             }
             "I" => {
                 let r = std::panic::catch_unwind(|| {
-                    let (pctx, _out, _, _) = assemble("nop", false).map_err(|e| e)?;
+                    let (pctx, _out, _, _) = assemble("hlt", false).map_err(|e| e)?;
                     let PreprocessorContext { label_map, fn_map, .. } = pctx;
                     let mut ictx = InterpreterContext { fn_map, label_map, call_stack: vec![3] };
                     let mut vm = VM::new();
@@ -66,7 +71,7 @@ fn main() {
                     vm.arch.dx = 0;
                     match Interpreter::new().parse(1, &mut vm, &mut ictx, arg) {
                         Ok(s) => Ok(format!("{:?}", s)),
-                        Err(e) => Err(format!("{}", e).replace('\n', " ").replace('\t', " ")),
+                        Err(e) => Err(short(format!("{}", e))),
                     }
                 });
                 let _ = &interp;
@@ -82,7 +87,7 @@ fn main() {
                     let mut ctr = 0usize;
                     match DataParser::new().parse(&mut vm, &mut ctr, arg) {
                         Ok(_) => Ok(format!("{}", ctr)),
-                        Err(e) => Err(format!("{}", e).replace('\n', " ").replace('\t', " ")),
+                        Err(e) => Err(short(format!("{}", e))),
                     }
                 });
                 let _ = &dp;
